@@ -32,6 +32,10 @@ MIN_EVALS = {'quick': 20000, 'thorough': 300000}
 ASSUMPTIONS = ['arguments are always drawn from the documented types (TypeError is an allowed outcome)',
                'sizes are bounded (<= ~10^7 bits) so MemoryError is never provoked']
 
+# how a bitstring-like argument is handed over: the usual kinds, instances of subclasses, views that are not contiguous in memory,
+# bitarrays of the other bit-endianness, arbitrary truthy / falsy items
+KINDS20 = util.OPERAND_KINDS * 2 + util.SUBCLASS_KINDS + ['truthy', 'truthy-iter']
+
 ALLOWED = (ValueError, IndexError, TypeError, bitstring.Error, OSError)
 INTERNAL = (AttributeError, AssertionError, KeyError, NameError, RecursionError, ZeroDivisionError, NotImplementedError,
             RuntimeError, StopIteration, UnboundLocalError)
@@ -179,11 +183,11 @@ def gen_arg(rng, pname, cname, L, method):
             return ['str', rng.choice(TOKENS_BAD + ['0xff', '0b1', 'u8=3', 'ue=4', 'float:32=1.5'])]
         n = rng.choice([0, 0, 1, 2, 3, 8, 9, 16, L, max(L - 1, 0), L + 1])
         if rng.random() < 0.12:
-            return ['bits', util.operand_spec(rng, rng.choice(['0' * 8, '0' * 16, '1' * 8, '0' * 24, '10000000', '00000001']))]      # whole bytes of one value
-        return ['bits', util.operand_spec(rng, rb(rng, min(n, 5000)))]
+            return ['bits', util.operand_spec(rng, rng.choice(['0' * 8, '0' * 16, '1' * 8, '0' * 24, '10000000', '00000001']), KINDS20)]      # whole bytes of one value
+        return ['bits', util.operand_spec(rng, rb(rng, min(n, 5000)), KINDS20)]
     if pname == 'other':
         if cname == 'Array' and method in ('__and__', '__or__', '__xor__', '__iand__', '__ior__', '__ixor__', '__rand__', '__ror__', '__rxor__'):
-            return ['bits', util.operand_spec(rng, rb(rng, rng.choice([0, 1, 8, 16, 3, 4])))]
+            return ['bits', util.operand_spec(rng, rb(rng, rng.choice([0, 1, 8, 16, 3, 4])), KINDS20)]
         if cname == 'Array' and method in ('__lshift__', '__rshift__', '__ilshift__', '__irshift__', '__mod__', '__imod__'):
             return rng.choice([['int', rng.choice([0, 1, -1, 2, 8, 64, 10 ** 4])], ['array', rng.choice(['uint8', 'int8', 'uint1']), rng.choice([[], [1], [1, 0], [1, 1, 0]])]])
         if cname == 'Array' and method in ('__eq__', '__ne__', 'equals'):
@@ -197,7 +201,7 @@ def gen_arg(rng, pname, cname, L, method):
                 return ['array', rng.choice(['uint8', 'int8', 'float32', 'uint1', 'hex4', 'int64']), rng.choice([[], [1], [1, 0], [1, 1, 0]])] \
                     if True else None
             return ['none']
-        return ['bits', util.operand_spec(rng, rb(rng, rng.choice([0, 1, 8, L, L + 1])))]
+        return ['bits', util.operand_spec(rng, rb(rng, rng.choice([0, 1, 8, L, L + 1])), KINDS20)]
     if pname in ('pos',):
         if method in ('all', 'any', 'set', 'invert'):
             r = rng.random()
@@ -229,7 +233,7 @@ def gen_arg(rng, pname, cname, L, method):
             if cname == 'Array':
                 return rng.choice([['int', rng.choice([0, 1, 255, 256, -1])], ['list', [['int', rng.choice([0, 1, 300])] for _ in range(rng.randint(0, 3))]],
                                    ['str', 'ff'], ['float', 1.5], ['raising-iter', [1]]])
-            return rng.choice([['int', rng.choice([0, 1, -1, 2, 255, -128, 10 ** 9])], ['bits', util.operand_spec(rng, rb(rng, rng.choice([0, 1, 2, 8])))],
+            return rng.choice([['int', rng.choice([0, 1, -1, 2, 255, -128, 10 ** 9])], ['bits', util.operand_spec(rng, rb(rng, rng.choice([0, 1, 2, 8])), KINDS20)],
                                ['bits', ['self']], ['str', rng.choice(TOKENS_BAD)], ['bool', True]])
         return rng.choice([['int', 0], ['int', 1], ['bool', True], ['bool', False], ['str', ''], ['int', -5], ['none'], ['float', float('nan')],
                            ['str', 'e'], ['bits', ['Bits', '1']]])
@@ -255,7 +259,7 @@ def gen_arg(rng, pname, cname, L, method):
     if pname == 'sequence':
         r = rng.random()
         if r < 0.7:
-            return ['list', [['bits', util.operand_spec(rng, rb(rng, rng.choice([0, 1, 8])))] if rng.random() < 0.8 else rng.choice([['int', 3], ['none'], ['str', 'zz'], ['bits', ['self']]])
+            return ['list', [['bits', util.operand_spec(rng, rb(rng, rng.choice([0, 1, 8])), KINDS20)] if rng.random() < 0.8 else rng.choice([['int', 3], ['none'], ['str', 'zz'], ['bits', ['self']]])
                              for _ in range(rng.randint(0, 4))]]
         return ['raising-iter', ['0b1']]
     if pname in ('f',):
